@@ -25,6 +25,8 @@ func TestMain(m *testing.M) {
 			"(1) rapid sequential programs: sizes 1 byte .. 3 pages +/- 1, New / CreateRandom, WithBytes, WithBytesFunc nested to depth 3, Reader.Read with odd buffer sizes, a Reader partly consumed before Close and read again after it, a read on the last reference to an unclosed secret with garbage collections forced during the callback, a callback that panics and is recovered by the caller, IsClosed, Close, use after Close; page state sampled inside every callback, between callbacks, after Close, and - at the address the previous secret of that size had - before a new secret's first access. "+
 			"(2) rapid concurrent cases: 2-4 readers and 1-2 closers on one secret with a delay plan (1-3 pauses of 0.2-3 ms) over the statement-level yield points the overlay inserts into the two secret.go files; reader goroutines run with SetPanicOnFault so a touch of a PROT_NONE / unmapped page is a recorded violation. "+
 			"(3) one reader held inside its callback while 4-16 goroutines enter and leave the same secret 500-3000 times each at full speed, in 2-6 bursts: after every burst the held reader's page is still r--p + locked with the original bytes, idle and Close behave as above afterwards. "+
+			"(4) ENUMERATED: every yield site the concurrent workload reaches taken as the single preemption point (visits 0-3, pause 1 ms, two close delays) of a 3-reader / 1-closer run. "+
+			"(5) secrets dropped without Close with a debug logger installed (before / after their creation): the library's clean-up of unreachable secrets does not fault on the idle pages and logs no secret content. "+
 			"Oracle: r--p + locked + dontdump while at least one reader is inside (never writable), ---p + locked + dontdump when idle, unmapped (or at least no longer locked) after Close; readers see exactly the original bytes; the source slice of New is zero afterwards; Close returns only when no callback is running; "+
 			"an access after Close returned gives an error and does not run the callback; IsClosed agrees with the model; no fault, no hang. One evaluation = one program. "+
 			"Non-trivial = >= 2 overlapping (nested or concurrent) readers, or a Close issued while a reader is inside (every run of (3)); distinct = (implementation, size class, operation sequence / plan sites)",
